@@ -789,22 +789,28 @@ class Flow:
                 d = next(iter(ds))
                 if d.kind != 'assign' or d.path != () or d.value is None:
                     return node
-                # free variables of the RHS must mean the same at the use site
-                fvs = names_loaded(d.value)
-                for fv in fvs:
-                    if flow.rd_in[d.node].get(fv, set()) != flow.rd_in[at_nid].get(fv, set()):
-                        return node
-                # ... and must not be re-bound on any path from the definition to the use
-                if d.node != at_nid:
-                    key = (d.node, at_nid)
-                    if key not in flow._between:
-                        flow._between[key] = flow.cfg.between(d.node, at_nid)
-                    for mid in flow._between[key]:
-                        for d2 in flow.defs_at.get(mid, ()):
-                            if d2.name in fvs or d2.name == node.id:
-                                return node
-                # RHS must be side-effect free enough: no calls that mutate? keep calls (pure assumption)
-                return flow._inline_at(d.value, d.node, depth - 1, stop)
+                def movable(e):
+                    """Every free variable of e means the same at the definition and at the use site."""
+                    fvs = names_loaded(e)
+                    for fv in fvs:
+                        if flow.rd_in[d.node].get(fv, set()) != flow.rd_in[at_nid].get(fv, set()):
+                            return False
+                    if d.node != at_nid:
+                        key = (d.node, at_nid)
+                        if key not in flow._between:
+                            flow._between[key] = flow.cfg.between(d.node, at_nid)
+                        for mid in flow._between[key]:
+                            for d2 in flow.defs_at.get(mid, ()):
+                                if d2.name in fvs or d2.name == node.id:
+                                    return False
+                    return True
+                if not movable(d.value):
+                    return node
+                inner = flow._inline_at(d.value, d.node, depth - 1, stop)
+                if movable(inner):
+                    return inner
+                import copy as _copy
+                return _copy.deepcopy(d.value)
 
         import copy
         return T().visit(copy.deepcopy(expr)) if not isinstance(expr, ast.Name) else T().visit_Name(expr)
